@@ -307,6 +307,21 @@ func TestPropMatrixInterpolation(t *testing.T) {
 			Label:   c.str("label"),
 			Key:     c.str("key"),
 		}
+		if nd > 0 && len(c.unknownDims) > 0 && rapid.IntRange(0, 19).Draw(t, "selfreproducing") == 0 {
+			// a value that rebuilds the very string it is put into: the field is one known token followed by
+			// a token of a dimension the permutation lacks, and the known dimension's value is that whole
+			// text. The output equals the input - and the unknown token is still an error.
+			d := rapid.SampledFrom(c.dims).Draw(t, "selfdim")
+			text := c.token(d) + c.token(rapid.SampledFrom(c.unknownDims).Draw(t, "selfunknown"))
+			perm[d] = text
+			if rapid.Bool().Draw(t, "selfincommand") {
+				step.Command = text
+			} else {
+				step.Label = text
+			}
+			st.tokenValue = true
+			st.positions++
+		}
 		for i, n := 0, rapid.IntRange(0, 3).Draw(t, "nplugins"); i < n; i++ {
 			var cfg any
 			if rapid.Bool().Draw(t, "hascfg") {
